@@ -787,6 +787,68 @@ func (c *c19) matrix(ctx context.Context, s *c19Server, mods []*c19Module, metho
 	}
 }
 
+// expiryAfterUse: a token with a short TTL is used while valid and again after it expired; the second
+// use must grant nothing (a server that remembers verified tokens must not forget their expiry).
+// Added after seeded change C19-a was missed. The only wall-clock element is waiting past the expiry:
+// more load only makes the token more expired; if the first use already comes too late the case is
+// counted as undecided.
+func (c *c19) expiryAfterUse(ctx context.Context, s *c19Server, mods []*c19Module, methods []*c19Method, signer jwt.Signer) {
+	run := c.run
+	const ttl = 2500 * time.Millisecond
+	minted := time.Now()
+	tk, err := perms.NewTokenWithTTL(signer, perms.AllPerms, ttl)
+	if err != nil {
+		run.Inconclusive("expiry-after-use: " + err.Error())
+		return
+	}
+	cr := &c19Cred{Name: "ttl-used-then-expired", Kind: "valid", Grants: []string{"public", "read", "write", "admin"}, Complete: true,
+		Token: string(tk), What: "perms.NewTokenWithTTL(AllPerms, 2.5s) used before and after its expiry"}
+	var pick []*c19Method
+	seen := map[string]bool{}
+	for _, m := range methods {
+		if m.Args == nil || m.Chan || seen[m.Perm] || m.Perm == "public" {
+			continue
+		}
+		seen[m.Perm] = true
+		pick = append(pick, m)
+	}
+	cl, closeFn, how, err := c19Connect(ctx, mods, "http", s.addr, cr)
+	if err != nil {
+		run.Inconclusive("expiry-after-use: cannot connect with a fresh token: " + how + ": " + err.Error())
+		return
+	}
+	defer closeFn()
+	call := func(m *c19Method) bool {
+		fn := reflect.ValueOf(cl).Elem().FieldByName(m.Mod.ClientField).FieldByName("Internal").FieldByName(m.Name)
+		h0, _ := s.rec.snap(m.Key)
+		cctx, cancel := context.WithTimeout(ctx, 30*time.Second)
+		defer cancel()
+		_, _ = vkit.Recover(func() { fn.Call(append([]reflect.Value{reflect.ValueOf(cctx)}, m.Args...)) })
+		h1, _ := s.rec.snap(m.Key)
+		return h1 > h0
+	}
+	usedWhileValid := 0
+	for _, m := range pick {
+		if call(m) && time.Since(minted) < ttl-200*time.Millisecond {
+			usedWhileValid++
+		}
+	}
+	if usedWhileValid != len(pick) {
+		run.Count("expiry-after-use/undecided(first use too late or refused)", 1)
+		return
+	}
+	time.Sleep(time.Until(minted.Add(ttl + 1200*time.Millisecond))) // token expiry has one-second granularity
+	for _, m := range pick {
+		run.Eval(1)
+		run.Distinct(s.mode.Name + "|expiry-after-use|" + m.Key)
+		run.Count("expiry-after-use/checked", 1)
+		if call(m) {
+			c.finding("C19 expired token still reaches a method after it was used while valid: need="+m.Perm+" mode="+s.mode.Name,
+				map[string]any{"method": m.Key, "perm": m.Perm, "token": cr.What, "mode": s.mode.Name})
+		}
+	}
+}
+
 // ---------------------------------------------------------------------------------------------
 // sensitivity floor
 
@@ -981,6 +1043,9 @@ func TestC19(t *testing.T) {
 		go func(i int, s *c19Server) {
 			defer wg.Done()
 			c.matrix(ctx, s, mods, methods, creds, rng.SplitN("order", i))
+			if !s.mode.SkipAuth {
+				c.expiryAfterUse(ctx, s, mods, methods, signer)
+			}
 			sctx, cancel := context.WithTimeout(context.Background(), 5*time.Second)
 			_ = s.srv.Stop(sctx)
 			cancel()
